@@ -155,8 +155,9 @@ func run(c *core.Case, st *core.CaseStats, seed int64) {
 			if !ok {
 				rep("PKCS7Padding", "value", in, want, fmt.Sprint(got, err))
 			} else {
-				back, err2 := cryptz.PKCS7UnPadding(got, b)
-				if err2 != nil || !bytes.Equal(back, d) {
+				var back []byte
+				var err2 error
+				if guard("PKCS7UnPadding", in, func() { back, err2 = cryptz.PKCS7UnPadding(got, b) }) && (err2 != nil || !bytes.Equal(back, d)) {
 					rep("PKCS7UnPadding", "value", in, "round trip", fmt.Sprint(back, err2))
 				}
 			}
@@ -165,6 +166,36 @@ func run(c *core.Case, st *core.CaseStats, seed int64) {
 				if e5 != nil || !bytes.Equal(g5, got) {
 					rep("PKCS5Padding", "value", in, got, fmt.Sprint(g5, e5))
 				}
+			}
+		}
+	case "bigunpad":
+		b, nb, q, cor := argI(c, 0), argI(c, 1), argI(c, 2), argI(c, 3)
+		want := core.RawInts(c.Out)
+		data := rb(b * nb)
+		for i := range data { // keep accidental paddings out of the random part
+			data[i] = data[i]%50 + 200
+			if int(data[i]) == q || int(data[i]) == b {
+				data[i] = 199
+			}
+		}
+		if q >= 1 && q <= b {
+			for i := 0; i < q && i < len(data); i++ {
+				data[len(data)-1-i] = byte(q)
+			}
+		}
+		data[len(data)-1] = byte(q)
+		if cor > 1 && cor <= len(data) {
+			data[len(data)-cor] ^= 0x40
+		}
+		in := map[string]interface{}{"block": b, "blocks": nb, "last": q, "corrupt_from_end": cor, "data": data}
+		st.Nontrivial++
+		var back []byte
+		var err error
+		if guard("PKCS7UnPadding", in, func() { back, err = cryptz.PKCS7UnPadding(append([]byte{}, data...), b) }) {
+			if want[0] == 1 && (err != nil || len(back) != want[1] || !bytes.Equal(back, data[:len(back)])) {
+				rep("PKCS7UnPadding", "value", in, want, fmt.Sprint(len(back), err))
+			} else if want[0] == 0 && err == nil {
+				rep("PKCS7UnPadding", "value", in, "error (not a correctly padded multiple of the block size)", len(back))
 			}
 		}
 	case "paderr":
